@@ -154,8 +154,19 @@ class Ctx:
                 "Definition M := Eval vm_compute in (%s cases).\nPrint M.\n" % fn
             jobs.append((k, "%s_%s_%d" % (self.pid, name, k // shard), src))
         bad = []
+        def one(j):
+            # a coqc killed from outside or by its time limit (loaded machine) is retried with a longer limit:
+            # only a genuine Coq error or a computed mismatch may count against the property
+            t = timeout
+            for attempt in range(3):
+                rc, out, dt = self.coq_eval(j[1], j[2], timeout=t)
+                if rc in (124, 137, 143, -9, -15) or ("Terminated" in out[-200:] or "Killed" in out[-200:]) and "Error" not in out:
+                    t *= 3
+                    continue
+                break
+            return (j[0], rc, out, dt)
         with ThreadPoolExecutor(max_workers=14) as ex:
-            res = list(ex.map(lambda j: (j[0],) + self.coq_eval(j[1], j[2], timeout=timeout), jobs))
+            res = list(ex.map(one, jobs))
         for k, rc, out, dt in res:
             if rc != 0:
                 return None, "coqc failed on generated cases (%s): %s" % (name, out[-1500:])
